@@ -424,10 +424,8 @@ def interp_part(run, n):
     failing = coq_compare(run, [cases[i] for i in ok_idx], [results[i] for i in ok_idx])
     run.cov["traces_validated_against_impl"] += len(ok_idx) - len(failing)
     run.cov["interp_lifecycles_validated_against_model"] = len(ok_idx) - len(failing)
-    for j in failing:
+    for j in [x for x in failing if ok_idx[x] not in explained][:2]:
         i = ok_idx[j]
-        if i in explained:
-            continue
         c, r = cases[i], results[i]
         run.violation({"kind": "correspondence", "site": "interpolated-track"}, {
             "part": "interp", "broken": "correspondence Sched/InterpLife.v (ltrace) <-> Track.tick (interpolating branch) / mute / unschedule: the theorems "
